@@ -582,3 +582,189 @@ func init() {
 		NonVacuous: []string{"C17.batch"}, Chunk: 4,
 		Rule: "Harness and repository built with the race detector. Clusters of 2-64 nodes (a quarter tainted, so that injected pods there and injected duplicates are clean-up work); syncs with many simultaneous creations, clean-up deletions and update-deletions; every parked call of a parallel batch is executed and then released together so the goroutines really run concurrently; none / some / all of the batch's calls are made to fail, chosen by call identity; the four reconcilers, kubelet and kubectl-eds commands overlap in a seeded chaos phase. A race report (exit 66) is a violation; the error-reflection monitor runs on every sync whose status write succeeded."})
 }
+
+// ---------------------------------------------------------------------------------------
+// C01 (state injection half): a multiset of 0-3 daemon pods per node.
+
+type c01Pod struct {
+	ERS   string   `json:"ers"` // old, new, legacy
+	State PodState `json:"state"`
+}
+
+func genC01Inject(r *rand.Rand, tier string, idx int) *World {
+	w := &World{DefaultValidationMode: "auto", Extra: map[string]string{"body": "c01inject"}}
+	w.AffinityMode = chance(r, 0.5)
+	maxN := 8
+	if tier == "thorough" {
+		maxN = 16
+	}
+	n := 1 + r.IntN(maxN)
+	plain := pick(r, 0.4, 0.7)
+	for i := 0; i < n; i++ {
+		w.Nodes = append(w.Nodes, genNode(r, nodeName(i), plain))
+	}
+	tpl := genTemplate(r, "A", pick(r, 0.3, 0.7))
+	e := &EDSDef{NS: "ns1", Name: "foo", Initial: "A", Templates: map[string]*TemplateDef{"A": tpl, "B": tpl.withLetter("B")}}
+	if chance(r, 0.3) {
+		e.Templates["B"] = genTemplate(r, "B", 0.5)
+	}
+	e.Strategy = StrategyDef{ReconcileFrequency: "10s", MaxUnavailable: pick(r, "1", "50%", "100%"), SlowStartIncrease: pick(r, "1", "100%"), SlowStartInterval: "10s"}
+	canary := chance(r, 0.4)
+	if canary {
+		e.Strategy.Canary = &CanaryDef{Replicas: pick(r, "1", "2"), Duration: "6h"}
+	}
+	if chance(r, 0.2) {
+		e.OldDS = "legacy"
+	}
+	w.EDS = []*EDSDef{e}
+	pods := map[string][]c01Pod{}
+	for i := 0; i < n; i++ {
+		k := pick(r, 0, 1, 1, 1, 2, 2, 3)
+		for j := 0; j < k; j++ {
+			p := c01Pod{ERS: pick(r, "old", "old", "new", "new", "new")}
+			if e.OldDS != "" && chance(r, 0.3) {
+				p.ERS = "legacy"
+			}
+			p.State = PodState{Kind: pick(r, "ready", "ready", "ready", "unready", "pending", "failed", "unknown", "creating"), AgeSec: pick(r, 30, 30, 60, 120, 700)}
+			p.State.Term = chance(r, 0.15)
+			p.State.Unsched = chance(r, 0.2)
+			p.State.Suffix = fmt.Sprintf("-%d", j)
+			pods[nodeName(i)] = append(pods[nodeName(i)], p)
+		}
+	}
+	b, _ := json.Marshal(pods)
+	w.Extra["pods"] = string(b)
+	w.Extra["roles"] = pick(r, "new", "new,old", "old,new", "new,new")
+	w.Cfg = Config{Kubelet: true, MapOrder: pick(r, 0, 0, 1, 2)}
+	if idx%4 == 3 {
+		w.Cfg.PReject, w.Cfg.PLost = pick(r, 0.05, 0.2), pick(r, 0.0, 0.05)
+	}
+	return w
+}
+
+func bodyC01Inject(s *Sim) {
+	s.Setup()
+	def := s.W.EDS[0]
+	key := types.NamespacedName{Namespace: def.NS, Name: def.Name}
+	if def.OldDS != "" {
+		s.ensureLegacyDS(def)
+	}
+	s.bootstrap(def)
+	if a := s.ersByLetter(def, "A"); a != nil {
+		s.RunTask(CtrlERS, types.NamespacedName{Namespace: a.Namespace, Name: a.Name})
+	}
+	s.RunTask(CtrlEDS, key)
+	s.userSetTemplate(def.NS, def.Name, "B")
+	s.RunTask(CtrlEDS, key)
+	s.RunTask(CtrlEDS, key)
+	oldRS, newRS := s.ersByLetter(def, "A"), s.ersByLetter(def, "B")
+	if oldRS == nil || newRS == nil {
+		return
+	}
+	for _, p := range s.Store.Pods() {
+		s.Store.Remove(objKey{KPod, p.Namespace, p.Name})
+	}
+	var pods map[string][]c01Pod
+	_ = json.Unmarshal([]byte(s.W.Extra["pods"]), &pods)
+	for _, n := range s.Store.Nodes() {
+		for _, p := range pods[n.Name] {
+			switch p.ERS {
+			case "old":
+				s.injectPod(oldRS, n, p.State)
+			case "new":
+				s.injectPod(newRS, n, p.State)
+			case "legacy":
+				s.injectLegacyPod(def, n, p.State)
+			}
+		}
+	}
+	s.phase = "body"
+	s.faultyDrain = true
+	s.Advance(11 * time.Second)
+	for _, role := range strings.Split(s.W.Extra["roles"], ",") {
+		rs := newRS
+		if role == "old" {
+			rs = oldRS
+		}
+		s.RunTask(CtrlERS, types.NamespacedName{Namespace: rs.Namespace, Name: rs.Name})
+		if s.rngSched.IntN(2) == 0 {
+			s.Advance(11 * time.Second)
+		}
+	}
+	s.faultyDrain = false
+}
+
+// ---------------------------------------------------------------------------------------
+// C09 (state injection half): many nodes lacking a pod, request instants on slot edges.
+
+func genC09Inject(r *rand.Rand, tier string, idx int) *World {
+	w := &World{DefaultValidationMode: "auto", Extra: map[string]string{"body": "c09inject"}}
+	w.AffinityMode = chance(r, 0.5)
+	n := pick(r, 0, 1, 2, 5, 9, 17, 40)
+	for i := 0; i < n; i++ {
+		nd := &NodeDef{Name: nodeName(i)}
+		if chance(r, 0.15) {
+			nd.Taints = []string{"dedicated:NoSchedule"}
+		}
+		w.Nodes = append(w.Nodes, nd)
+	}
+	e := &EDSDef{NS: "ns1", Name: "foo", Initial: "A", Templates: map[string]*TemplateDef{"A": {Letter: "A"}, "B": {Letter: "B"}}}
+	e.Strategy = StrategyDef{
+		SlowStartInterval:  pick(r, "1s", "10s", "1m", "5m"),
+		SlowStartIncrease:  pick(r, "1", "2", "5", "10%", "50%"),
+		ReconcileFrequency: pick(r, "1s", "10s", "1m"),
+		MaxUnavailable:     pick(r, "1", "3", "25%"),
+	}
+	e.Strategy.MaxParallel = i32(pick(r, int32(1), 2, 5, 250))
+	w.EDS = []*EDSDef{e}
+	w.Extra["requests"] = fmt.Sprint(5 + r.IntN(16))
+	w.Extra["update"] = pick(r, "0", "0", "1")
+	w.Cfg = Config{Kubelet: true, MapOrder: pick(r, 0, 1, 2), Stall: chance(r, 0.3)}
+	if idx%3 == 2 {
+		w.Cfg.PReject = pick(r, 0.02, 0.1)
+		w.Cfg.SkewSec = pick(r, 0, 1, -1)
+	}
+	return w
+}
+
+func bodyC09Inject(s *Sim) {
+	s.Setup()
+	def := s.W.EDS[0]
+	key := types.NamespacedName{Namespace: def.NS, Name: def.Name}
+	s.bootstrap(def)
+	s.phase = "body"
+	s.faultyDrain = true
+	reqs := 10
+	fmt.Sscan(s.W.Extra["requests"], &reqs)
+	r := subRng(s.Seed, "c09req")
+	for i := 0; i < reqs; i++ {
+		if i == reqs/2 && s.W.Extra["update"] == "1" {
+			s.userSetTemplate(def.NS, def.Name, "B")
+			s.RunTask(CtrlEDS, key)
+			s.RunTask(CtrlEDS, key)
+		}
+		ds := s.advanceCandidates()
+		s.Advance(ds[r.IntN(len(ds))])
+		for _, rs := range s.Store.ERSs() {
+			s.RunTask(CtrlERS, types.NamespacedName{Namespace: rs.Namespace, Name: rs.Name})
+		}
+		switch r.IntN(3) {
+		case 0:
+			s.settleAll()
+		case 1:
+			for _, p := range s.Store.Pods() {
+				if r.IntN(2) == 0 {
+					if p.DeletionTimestamp != nil {
+						s.Store.Remove(objKey{KPod, p.Namespace, p.Name})
+					} else {
+						s.kSettle(p)
+					}
+				}
+			}
+		}
+		if r.IntN(3) == 0 {
+			s.RunTask(CtrlEDS, key)
+		}
+	}
+	s.faultyDrain = false
+}
